@@ -24,7 +24,7 @@ static const TvinEntry tvinEntries[] = {TVIN (l_set, "Line3.set"), TVIN (l_cpl, 
                                         TVIN (la_closestPoints, "LineAlgo.closestPoints"), TVIN (la_intersect, "LineAlgo.intersect"),
                                         TVIN (la_rotatePoint, "LineAlgo.rotatePoint"), TVIN (p_set3, "Plane3.setPoints"), TVIN (p_intersectT, "Plane3.intersectT"),
                                         TVIN (p_intersect, "Plane3.intersect"), TVIN (s_intersectT, "Sphere3.intersectT"), TVIN (s_intersect, "Sphere3.intersect"),
-                                        TVIN (la_closestVertex, "LineAlgo.closestVertex")};
+                                        TVIN (la_closestVertex, "LineAlgo.closestVertex"), TVIN (l_mulM44, "Line3.mulM44")};
 static int tvin (int argc, char** argv)
 {
     using namespace symns;
